@@ -13,6 +13,8 @@ pub fn run(ctx: &Ctx) -> Report {
         Plan { fam: "BIG", styles: plain.clone(), debug: both.clone(), stride: 1 },
         Plan { fam: "FENCE", styles: plain.clone(), debug: both.clone(), stride: 1 },
         Plan { fam: "LAB", styles: plain.clone(), debug: both.clone(), stride: 1 },
+        // "compared ignoring case" for every cased letter of Unicode (the case mapping is the standard library's str::to_uppercase)
+        Plan { fam: "CASE", styles: plain.clone(), debug: both.clone(), stride: 1 },
         Plan { fam: "S2", styles: plain.clone(), debug: vec![true], stride: 1 },
         Plan { fam: "F1", styles: plain.clone(), debug: both.clone(), stride: 1 },
         Plan { fam: "F2", styles: plain.clone(), debug: vec![true], stride: ctx.pick(37, 1) },
